@@ -49,6 +49,10 @@ def satS (bits : Nat) (x : Int) : Int :=
 def sat_i32 (x : Int) : Int := satS 32 x
 def sat_i64 (x : Int) : Int := satS 64 x
 
+/-- `PartialOrd::partial_cmp` of core on a pair of integers: lexicographic, always `Some` (modelled, trusted) -/
+def tuple2_partial_cmp (a b : Int × Int) : Option Ordering :=
+  some (if a.1 < b.1 then .lt else if a.1 > b.1 then .gt else if a.2 < b.2 then .lt else if a.2 > b.2 then .gt else .eq)
+
 /-- `MonthWeekDay` (the model keeps its three fields inside `RuleDay.mwd`) -/
 structure MonthWeekDay where
   month : Int
